@@ -337,6 +337,18 @@ func registerMisc(e *engine) {
 		*p = append(b, bs...)
 		return tuple{len(bs), iface{}}
 	})
+	e.reg("io.WriteString", func(fr *frame, fn *ssa.Function, a []value) value {
+		m := fr.m
+		w := a[0].(iface)
+		if w.t == nil {
+			m.runtimePanic("invalid memory address or nil pointer dereference (io.WriteString to nil writer)")
+		}
+		wf := m.eng.prog.LookupMethod(w.t, nil, "Write")
+		if wf == nil {
+			m.unsupported("io.WriteString to writer without Write")
+		}
+		return call(m, fr, 0, wf, []value{w.v, strBytes(a[1])})
+	})
 	e.reg("time.initLocal", func(fr *frame, fn *ssa.Function, a []value) value { return nil })
 	// reflect (minimal)
 	e.reg("reflect.DeepEqual", func(fr *frame, fn *ssa.Function, a []value) value {
